@@ -71,6 +71,7 @@ def part1 (j : Lean.Json) (k : String) : R (List (String × Lean.Json)) := do
     if k == "rt" then
       pure [("reparse_ok", .bool implOk),
             ("reserialised_equal", .bool (implReser == some doc)),
+            ("parsed_value_equals_written_value", .bool ((fldD impl "value_ok" (.bool false)) == .bool true)),
             ("idempotent", .bool implIdem)]
     else if k == "fbits" then
       pure [("reparse_ok", .bool implOk),
